@@ -68,4 +68,5 @@ def run(rep, tier):
         nb += c15.r15f(rep, prog)
     if nb == 0:
         rep.analysis_broken('parmcb::is_bfs_reachable is not instantiated (anchor vanished)')
+    c15.r02h_bfs(rep)
     rep.assume('the numeric (2k-1) bound follows from the premises by the standard greedy-spanner argument; that argument is not mechanised here')
